@@ -29,15 +29,16 @@ Fixpoint b2s (b : bytes) : string :=
 
 Definition is_space (c : N) : bool := (c =? 32) || (c =? 9) || (c =? 10) || (c =? 13).
 
-(* tokenizer: [cur] is the atom being accumulated, reversed *)
+(* tokenizer: [cur] is the atom being accumulated, reversed.  [flush] is a function and is
+   called only where an atom ends: extraction evaluates a [let] eagerly at every character *)
+Definition flush_atom (cur : bytes) : list tok := match cur with [] => [] | _ => [TA (rev_append cur [])] end.
 Fixpoint tokenize (cur : bytes) (s : bytes) : list tok :=
-  let flush := match cur with [] => [] | _ => [TA (rev cur)] end in
   match s with
-  | [] => flush
+  | [] => flush_atom cur
   | c :: s' =>
-    if c =? 40 then flush ++ TL :: tokenize [] s'
-    else if c =? 41 then flush ++ TR :: tokenize [] s'
-    else if is_space c then flush ++ tokenize [] s'
+    if c =? 40 then flush_atom cur ++ TL :: tokenize [] s'
+    else if c =? 41 then flush_atom cur ++ TR :: tokenize [] s'
+    else if is_space c then flush_atom cur ++ tokenize [] s'
     else tokenize (c :: cur) s'
   end.
 
